@@ -388,4 +388,16 @@ theorem drop_pre (pre bs rest : Bytes) : (pre ++ bs ++ rest).drop pre.length = b
   rfl
 
 
+theorem le_alignUp (k : Kind) (c : Nat) : c ≤ alignUp c k.align := by
+  cases k <;> simp only [Kind.align, alignUp] <;> omega
+
+theorem serialize_ok_of_ne_null (v : Value) (h : v ≠ .null) : ∃ bs, serialize v = .ok bs := by
+  cases v <;> first | exact absurd rfl h | exact ⟨_, rfl⟩
+
+theorem layoutKeys_cons (c : Nat) (v : Value) (vs : List Value) (bs : Bytes) (hs : serialize v = .ok bs) :
+    layoutKeys c (v :: vs) =
+      List.replicate (alignUp c v.kind.align - c) 0 ++ bs ++ layoutKeys (alignUp c v.kind.align + bs.length) vs := by
+  simp only [layoutKeys, hs]
+
+
 end AxVerif.Value
